@@ -246,7 +246,8 @@ class Run:
         self.tier = tier
         self.seed = seed
         self.t0 = time.time()
-        self.work = os.path.join(WORK, prop)
+        self.scratch_run = bool(os.environ.get("VERIF_NO_EVIDENCE")) or REPO != "/repo"
+        self.work = os.path.join(WORK, prop + ("-%d" % os.getpid() if self.scratch_run else ""))
         shutil.rmtree(self.work, ignore_errors=True)
         os.makedirs(self.work, exist_ok=True)
         self.evaluations = 0
@@ -333,7 +334,10 @@ class Run:
         ev = dict(property_id=self.prop, tier=self.tier, seed=self.seed, level=level,
                   coverage=cov, assumptions=self.assumptions, wall_s=round(wall, 2),
                   violations=self.n_violations)
-        with open(os.path.join(VERIF, "evidence", self.prop + ".json"), "w") as f:
+        ev_path = os.path.join(VERIF, "evidence", self.prop + ".json")
+        if self.scratch_run:     # runs against a scratch copy (mutants, proposed fixes) never touch the evidence
+            ev_path = os.path.join(self.work, self.prop + ".evidence.json")
+        with open(ev_path, "w") as f:
             json.dump(ev, f, indent=1, default=str)
             f.write("\n")
         for key, e in sorted(self.known_hits.items()):
@@ -341,7 +345,7 @@ class Run:
         rc = 0
         if self.violations:
             real = [v for v in self.violations if v]
-            rdir = os.path.join(VERIF, "replays", self.prop)
+            rdir = os.path.join(VERIF, "replays", self.prop + ("-scratch" if self.scratch_run else ""))
             os.makedirs(rdir, exist_ok=True)
             first = real[0]
             h = hashlib.blake2b(json.dumps(first, sort_keys=True, default=str).encode(),
